@@ -102,7 +102,7 @@ def run(ctx):
     ctx.neg("AltsRecordMC", "AltsRecordNeg.cfg", expect="I_NoWrongPlaintext", workers=2)
     binary = ctx.go_build("credentials/alts/internal/conn", name="c52", only=r"zz_verif_c52_")
     g = ctx.dump_graph("AltsRecordMC", "AltsRecordGen.cfg")
-    behs = ctx.edge_cover(g, step_of, limit=ctx.pick(1200, 12000))
+    behs = ctx.edge_cover(g, step_of, limit=ctx.pick(1200, 6000))
     frames = [0, 16384, 131072, 524288]
     scen = []
     for i, b in enumerate(behs):
@@ -118,7 +118,7 @@ def run(ctx):
     write_ndjson(bpath, scen)
     ctx.driver(binary, "TestVerifC52Replay", {"VERIF_BEHAVIOURS": bpath, "VERIF_OUT": tpath})
     judge(ctx, ctx.validate("AltsRecordTrace", "AltsRecordTrace.cfg", tpath), tpath, "replay of TLC behaviours")
-    n = ctx.pick(400, 5000)
+    n = ctx.pick(400, 3000)
     rnd = [random_scenario(ctx.rng) for _ in range(n)] + [overflow_scenario(ctx.rng) for _ in range(ctx.pick(20, 200))]
     # a write larger than the 512 KiB write buffer (several Conn.Write calls per Write)
     rnd.append({"frame": 0, "proto": "rekey", "seg": [1 << 30], "salt": 5,
@@ -129,7 +129,8 @@ def run(ctx):
     tpath2 = os.path.join(ctx.run, "trace-random.ndjson")
     write_ndjson(bpath2, rnd)
     ctx.driver(binary, "TestVerifC52Replay", {"VERIF_BEHAVIOURS": bpath2, "VERIF_OUT": tpath2})
-    ctx.count({"random_scenarios": len(rnd), "seed": ctx.seed}, n=len(rnd))
+    for sc in rnd:
+        ctx.count(sc)
     judge(ctx, ctx.validate("AltsRecordTrace", "AltsRecordTrace.cfg", tpath2), tpath2, "random scenarios seed %d" % ctx.seed)
     tpath3 = os.path.join(ctx.run, "trace-counter.ndjson")
     ctx.driver(binary, "TestVerifC52Counter", {"VERIF_OUT": tpath3})
